@@ -128,6 +128,23 @@ type EmbOuter struct {
 	ID int
 }
 
+// MarshObj: an object carried by a struct type that marshals itself (json.Marshaler and encoding.TextMarshaler): to the library it is
+// an object with the keys K and N like any other struct; the model sees the plain struct
+type MarshObj struct {
+	K string
+	N float64
+}
+
+func (m MarshObj) MarshalJSON() ([]byte, error) {
+	return []byte(fmt.Sprintf(`{"K":%q,"N":%v}`, m.K, m.N)), nil
+}
+func (m MarshObj) MarshalText() ([]byte, error) { return []byte(m.K), nil }
+
+// tvMarshObj: TV of a MarshObj (N == 7 on a struct TV selects the declared type)
+func tvMarshObj(k string, n float64) *TV {
+	return &TV{T: "struct", N: 7, V: [][3]any{{"K", 1, tvStr(k)}, {"N", 1, tvF64(n)}}}
+}
+
 // TV is the tagged value both sides read.
 type TV struct {
 	T   string   // nil bool str int f64 dec ptr slice array map struct func chan unexp
@@ -342,6 +359,11 @@ func build(t *TV) (reflect.Value, bool) {
 		return m, true
 	case "struct":
 		fs := t.V.([][3]any)
+		if t.N == 7 && len(fs) == 2 {
+			kv, _ := build(fs[0][2].(*TV))
+			nv, _ := build(fs[1][2].(*TV))
+			return reflect.ValueOf(MarshObj{K: kv.String(), N: nv.Float()}), true
+		}
 		var sf []reflect.StructField
 		var vals []reflect.Value
 		for _, f := range fs {
